@@ -61,6 +61,7 @@ const (
 	c36FEnumDef   = "C36-enum-set-default"
 	c36FViewCmt   = "C36-view-trailing-comment"
 	c36FEarlyYear = "C36-date-year-below-1000"
+	c36FFloatMax  = "C36-float-max"
 )
 
 func c36IsOpen(id string) bool {
@@ -97,6 +98,7 @@ func c36NewGate() *c36Gate {
 		noEnumDefault:  c36IsOpen(c36FEnumDef),
 		noViewComment:  c36IsOpen(c36FViewCmt),
 		noEarlyYear:    c36IsOpen(c36FEarlyYear),
+		noFloatMax:     c36IsOpen(c36FFloatMax),
 	}
 }
 
@@ -433,7 +435,7 @@ func TestVerif_C36(t *testing.T) {
 	defer os.RemoveAll(e.root)
 	gate := c36NewGate()
 	var open []string
-	for _, id := range []string{c36FBit, c36FGeo, c36FYear, c36FViewOrder, c36FTrigBlock, c36FEnumDef, c36FViewCmt, c36FEarlyYear} {
+	for _, id := range []string{c36FBit, c36FGeo, c36FYear, c36FViewOrder, c36FTrigBlock, c36FEnumDef, c36FViewCmt, c36FEarlyYear, c36FFloatMax} {
 		if c36IsOpen(id) {
 			open = append(open, id)
 		}
